@@ -149,8 +149,9 @@ structure Cfg where
   adminLevel : Nat := 30
   lateDict  : Bool := false  -- `true` = the per-port cache dict is looked up again when an answer is stored (instead of
                              -- the reference bound before the awaited persistence call); only for the witness theorem
-  popAfter  : Bool := false  -- `true` = `remove_samples` drops the ports' cache dicts again after the persistence call
-                             -- (candidate repair fixes/C18-remove-invalidate-after.diff); `false` = the code as it is
+  popAfter  : Bool := true   -- `remove_samples` drops the ports' cache dicts again after the awaited persistence call
+                             -- (repo commit d4ebdd9); `false` = before the repair (invalidation only before the
+                             -- await), kept only for the counter-example `overlapped_remove_race`
   deriving Repr
 
 /-- `_samples_cache`: port id ↦ timestamp ↦ adapted value (or null), flattened; Python dict = at most one entry per key. -/
